@@ -1,7 +1,7 @@
 package rules
 
 import (
-		"strings"
+	"strings"
 
 	"golang.org/x/tools/go/ssa"
 
